@@ -1733,7 +1733,10 @@ class Network(Cached):
         :rtype: 1d numpy array [node] of floats >= 0
         """
         k = self.degree() * 1.0
-        return self.undirected_adjacency() * k / k[k != 0]
+        neighbor_sum = self.undirected_adjacency() * k
+        #  nodes without neighbors get 0 (as in max_neighbors_degree)
+        return np.divide(neighbor_sum, k, out=np.zeros_like(neighbor_sum),
+                         where=k != 0)
 
     @Cached.method(name="maximum neighbours' degrees")
     def max_neighbors_degree(self):
